@@ -1,18 +1,20 @@
 (** Model of /repo/internal/actor/scheduler.go (the per-actor [Scheduler]) on top of the go-quartz
     [StdScheduler] of the actor system (github.com/reugn/go-quartz v0.15.2, quartz/scheduler.go,
-    trigger.go, queue.go), as they are.
+    trigger.go, queue.go), as they are (after the fixes 06e0030, 9c4b505, 7fd453c).
 
     Time is a virtual clock [now : Z] in milliseconds.  The quartz job queue is the table [tbl], keyed
-    by the job key.  The key is the BYTE STRING  path ++ ":" ++ reference  ([uniqueJobKey]); ':' is a legal
-    character of actor paths (internal/utils/ref.go pathRegexp) and of references, so different
-    (owner, reference) pairs can render the same key - the model keeps the string so that this is visible.
-    Every actor owns a map [jobKeys] reference -> key ([jk], indexed by the owner's path).
+    by the job key.  The key is quartz's JobKey{name = reference, group = path of the owner}
+    ([uniqueJobKey] = NewJobKeyWithGroup(reference, path)); JobKey.Equals compares both components, so the
+    key is the PAIR (path, reference).  Every actor owns a map [jobKeys] reference -> key ([jk], indexed by
+    the owner's path).
 
-    [scheduleJob] writes jobKeys[reference] FIRST, then calls quartz [ScheduleJob], whose
-    [ErrJobAlreadyExists] (a job with an equal key is queued) is IGNORED: [schedule] below does exactly
-    that.  [Cancel] deletes the jobKeys entry and then the queued job with that key (whoever owns it);
-    [Clear] does so for every entry of jobKeys; termination and restart of the owner call [Clear]
-    (killed_handler.go cleanupScheduler).
+    [Once] rejects a negative delay and [Loop] a non-positive interval with vivid.ErrorIllegalArgument before
+    anything else happens.  [scheduleJob] calls quartz [ScheduleJob] FIRST: an empty key name (= empty
+    reference) is refused with quartz's illegal-argument error, a key that is already queued with
+    [ErrJobAlreadyExists]; either error is returned to the caller and nothing has changed.  Only after a
+    successful ScheduleJob is jobKeys[reference] written.  [Cancel] deletes the jobKeys entry and then the
+    queued job with that key; [Clear] does so for every entry of jobKeys; termination and restart of the
+    owner call [Clear] (killed_handler.go cleanupScheduler).
 
     The quartz execution loop is modelled per job, because a firing changes nothing but the fired job:
     in a window [lo, hi] in which the loop is responsive ([OTick]) a job whose next run time n is <= hi is
@@ -20,8 +22,6 @@
     OutdatedThreshold (100 ms) the job is OUTDATED - a RunOnceTrigger has expired and the job is dropped
     without ever firing, a SimpleTrigger skips and continues at (instant + interval).  [OStall] advances
     the clock WITHOUT the loop running (process suspended, CPU starvation, stop-the-world pause).
-    A SimpleTrigger with an interval <= 0 never leaves the head of the queue: the loop spins for ever;
-    this is the explicit outcome [spin] (every later step answers [RSpin]; the theorems exclude it).
     A firing is the Tell of a SchedulerMessage to the receiver ([Scheduler.tell]); [Context.onScheduler]
     replaces the envelope's message by the wrapped one, so the behaviour sees the original payload:
     a [firing] record carries the payload, the receiver, the instant and whether the receiver was dead
@@ -31,9 +31,9 @@ From stdpp Require Import gmap.
 Local Open Scope Z_scope.
 
 Notation bytes := (list N).
+Notation key := (list N * list N)%type.
 
-Definition colon : N := 58%N.
-Definition job_key (path ref : bytes) : bytes := path ++ colon :: ref.
+Definition job_key (path ref : bytes) : key := (path, ref).
 
 (** quartz SchedulerConfig.OutdatedThreshold as set by NewStdScheduler *)
 Definition thr : Z := 100.
@@ -44,7 +44,7 @@ Inductive trig : Type :=
 | TCron.            (* quartz.CronTrigger: fire times are not interpreted (never within the model's horizon) *)
 
 Record job : Type := mkJob {
-  j_id : N;            (* which scheduling call created it (model-only: the n-th accepted-or-rejected call) *)
+  j_id : N;            (* which scheduling call created it (model-only: the n-th successful call) *)
   j_owner : bytes;     (* path of the actor whose ctx.Scheduler() was used *)
   j_recv : bytes;      (* path of the receiver *)
   j_ref : bytes;       (* ScheduleOptions.Reference *)
@@ -59,9 +59,9 @@ Record firing : Type := mkFiring {
   f_dead : bool;       (* receiver already terminated: the Tell becomes a dead letter *)
 }.
 
-Notation jobtbl := (gmap (list N) job).
-Notation keymap := (gmap (list N) (list N)).
-Notation actormap := (gmap (list N) (gmap (list N) (list N))).
+Notation jobtbl := (gmap (list N * list N) job).
+Notation keymap := (gmap (list N) (list N * list N)).
+Notation actormap := (gmap (list N) (gmap (list N) (list N * list N))).
 
 Record sched : Type := mkSched {
   now : Z;
@@ -69,11 +69,10 @@ Record sched : Type := mkSched {
   jk : actormap;         (* owner path -> jobKeys *)
   dead : gset (list N);  (* terminated actors *)
   fired : list firing;   (* every Tell done by a job so far *)
-  nid : N;               (* scheduling calls so far *)
-  spin : bool;           (* the quartz loop is spinning on a SimpleTrigger with interval <= 0 *)
+  nid : N;               (* successful scheduling calls so far *)
 }.
 
-Definition init : sched := mkSched 0 ∅ ∅ ∅ [] 0%N false.
+Definition init : sched := mkSched 0 ∅ ∅ ∅ [] 0%N.
 
 Definition jk_of (s : sched) (a : bytes) : keymap := default ∅ (jk s !! a).
 Definition is_dead (s : sched) (a : bytes) : bool := bool_decide (a ∈ dead s).
@@ -95,10 +94,10 @@ Fixpoint loop_fires (dd : gset (list N)) (j : job) (n i lo : Z) (c : nat) : list
 
 Inductive adv : Type :=
 | AKeep (j : job)   (* still queued (with this next run time) *)
-| ADrop             (* left the queue *)
-| ASpin.            (* interval <= 0: the loop never gets past this job *)
+| ADrop.            (* left the queue *)
 
-(** what the loop does with job [j] while it is responsive from [lo] to [hi] *)
+(** what the loop does with job [j] while it is responsive from [lo] to [hi]
+    (an interval <= 0 cannot be queued: [Loop] rejects it; the clause is there for totality) *)
 Definition advance (dd : gset (list N)) (lo hi : Z) (j : job) : list firing * adv :=
   let n := j_next j in
   match j_trig j with
@@ -109,7 +108,7 @@ Definition advance (dd : gset (list N)) (lo hi : Z) (j : job) : list firing * ad
       else ([fire_of dd j (Z.max lo n)], ADrop)
   | TLoop i =>
       if hi <? n then ([], AKeep j)
-      else if i <=? 0 then ([], ASpin)
+      else if i <=? 0 then ([], AKeep j)
       else
         let n1 := if n <? lo - thr then lo + i else n in            (* outdated: skip, continue at now + i *)
         if hi <? n1 then ([], AKeep (set_next j n1))
@@ -117,53 +116,62 @@ Definition advance (dd : gset (list N)) (lo hi : Z) (j : job) : list firing * ad
              (loop_fires dd j n1 i lo (Z.to_nat c), AKeep (set_next j (n1 + c * i)))
   end.
 
-Definition adv_keep (j : job) (a : adv) : option job :=
-  match a with AKeep j' => Some j' | ADrop => None | ASpin => Some j end.
-Definition adv_spin (a : adv) : bool := match a with ASpin => true | _ => false end.
+Definition adv_keep (a : adv) : option job :=
+  match a with AKeep j' => Some j' | ADrop => None end.
 
 Definition tick (dt : Z) (s : sched) : sched :=
   let lo := now s in
   let hi := lo + Z.max dt 0 in
-  let l := map_to_list (tbl s) in
   mkSched hi
-    (omap (fun j => adv_keep j (snd (advance (dead s) lo hi j))) (tbl s))
+    (omap (fun j => adv_keep (snd (advance (dead s) lo hi j))) (tbl s))
     (jk s) (dead s)
-    (fired s ++ flat_map (fun kj => fst (advance (dead s) lo hi (snd kj))) l)
-    (nid s)
-    (spin s || existsb (fun kj => adv_spin (snd (advance (dead s) lo hi (snd kj)))) l).
+    (fired s ++ flat_map (fun kj => fst (advance (dead s) lo hi (snd kj))) (map_to_list (tbl s)))
+    (nid s).
 
 (** ** the actor-side Scheduler *)
 
 Definition with_tbl (s : sched) (t : jobtbl) : sched :=
-  mkSched (now s) t (jk s) (dead s) (fired s) (nid s) (spin s).
+  mkSched (now s) t (jk s) (dead s) (fired s) (nid s).
 Definition with_jk (s : sched) (a : bytes) (m : keymap) : sched :=
-  mkSched (now s) (tbl s) (<[a := m]> (jk s)) (dead s) (fired s) (nid s) (spin s).
-
-(** scheduleJob: jobKeys first, then quartz ScheduleJob whose error is ignored *)
-Definition schedule (s : sched) (a recv ref : bytes) (p : N) (tr : trig) (next : Z) : sched :=
-  let k := job_key a ref in
-  let j := mkJob (nid s) a recv ref p tr next in
-  mkSched (now s)
-    (match tbl s !! k with Some _ => tbl s | None => <[k := j]> (tbl s) end)
-    (<[a := <[ref := k]> (jk_of s a)]> (jk s))
-    (dead s) (fired s) (nid s + 1)%N (spin s).
-
-Definition delete_all (ks : list bytes) (t : jobtbl) : jobtbl := foldr delete t ks.
-
-(** Clear: DeleteJob for every jobKeys entry, errors ignored; jobKeys ends empty *)
-Definition clear (s : sched) (a : bytes) : sched :=
-  with_jk (with_tbl s (delete_all (map snd (map_to_list (jk_of s a))) (tbl s))) a ∅.
+  mkSched (now s) (tbl s) (<[a := m]> (jk s)) (dead s) (fired s) (nid s).
 
 Inductive res : Type :=
 | ROk               (* nil *)
 | RParseErr         (* vivid.ErrorCronParse *)
 | RNotFound         (* vivid.ErrorNotFound *)
 | RQuartzNotFound   (* jobKeys knew the reference but the queue had no such job: quartz's "job not found", returned unconverted *)
+| RIllegalArg       (* vivid.ErrorIllegalArgument: negative delay / non-positive interval *)
+| RExists           (* quartz's "job already exists" (the reference is still queued), returned unconverted *)
+| REmptyRef         (* quartz's "illegal argument: empty key name is not allowed", returned unconverted *)
 | RBool (b : bool)  (* Exists *)
 | RUnit             (* Clear / clock steps / lifecycle steps return nothing *)
 | RDeadActor        (* the actor has terminated: none of its handlers runs, the call does not happen *)
-| RSpin             (* the quartz loop is spinning: nothing is modelled from here on *)
-| RDump (jks : list (bytes * list bytes)) (keys : list bytes).
+| RDump (jks : list (bytes * list bytes)) (keys : list (bytes * bytes)).
+
+(** the state after a successful scheduleJob: the job is queued, then jobKeys[reference] is written *)
+Definition insert_job (s : sched) (a recv ref : bytes) (p : N) (tr : trig) (next : Z) : sched :=
+  let k := job_key a ref in
+  mkSched (now s)
+    (<[k := mkJob (nid s) a recv ref p tr next]> (tbl s))
+    (<[a := <[ref := k]> (jk_of s a)]> (jk s))
+    (dead s) (fired s) (nid s + 1)%N.
+
+(** scheduleJob: quartz ScheduleJob first; its error is returned and nothing changes *)
+Definition schedule (s : sched) (a recv ref : bytes) (p : N) (tr : trig) (next : Z) : sched * res :=
+  match ref with
+  | [] => (s, REmptyRef)
+  | _ :: _ =>
+      match tbl s !! job_key a ref with
+      | Some _ => (s, RExists)
+      | None => (insert_job s a recv ref p tr next, ROk)
+      end
+  end.
+
+Definition delete_all (ks : list key) (t : jobtbl) : jobtbl := foldr delete t ks.
+
+(** Clear: DeleteJob for every jobKeys entry, errors ignored; jobKeys ends empty *)
+Definition clear (s : sched) (a : bytes) : sched :=
+  with_jk (with_tbl s (delete_all (map snd (map_to_list (jk_of s a))) (tbl s))) a ∅.
 
 Definition cancel (s : sched) (a ref : bytes) : sched * res :=
   match jk_of s a !! ref with
@@ -174,7 +182,7 @@ Definition cancel (s : sched) (a ref : bytes) : sched * res :=
   end.
 
 Inductive op : Type :=
-| OOnce (a recv ref : bytes) (d : Z) (p : N)          (* ctx.Scheduler().Once(recv, d, p, WithSchedulerReference(ref)) inside a handler of actor a *)
+| OOnce (a recv ref : bytes) (d : Z) (p : N)          (* ctx.Scheduler().Once(recv, d, p, reference ref) inside a handler of actor a *)
 | OLoop (a recv ref : bytes) (i : Z) (p : N)
 | OCron (a recv ref : bytes) (valid : bool) (p : N)   (* valid = whether quartz parses the expression *)
 | OCancel (a ref : bytes)
@@ -193,36 +201,40 @@ Fixpoint lex_leb (a b : bytes) : bool :=
   | _ :: _, [] => false
   | x :: a', y :: b' => if (x <? y)%N then true else if (y <? x)%N then false else lex_leb a' b'
   end.
-Fixpoint ins_bytes (x : bytes) (l : list bytes) : list bytes :=
+Definition lex_ltb (a b : bytes) : bool := negb (lex_leb b a).
+Definition key_leb (x y : key) : bool :=
+  if lex_ltb (fst x) (fst y) then true else if lex_ltb (fst y) (fst x) then false else lex_leb (snd x) (snd y).
+Fixpoint ins_sorted {A} (le : A -> A -> bool) (x : A) (l : list A) : list A :=
   match l with
   | [] => [x]
-  | y :: r => if lex_leb x y then x :: l else y :: ins_bytes x r
+  | y :: r => if le x y then x :: l else y :: ins_sorted le x r
   end.
-Definition sort_bytes (l : list bytes) : list bytes := foldr ins_bytes [] l.
+Definition sort_by {A} (le : A -> A -> bool) (l : list A) : list A := foldr (ins_sorted le) [] l.
 
 Definition dump (s : sched) (actors : list bytes) : res :=
-  RDump (map (fun a => (a, sort_bytes (map fst (map_to_list (jk_of s a))))) actors)
-        (sort_bytes (map fst (map_to_list (tbl s)))).
+  RDump (map (fun a => (a, sort_by lex_leb (map fst (map_to_list (jk_of s a))))) actors)
+        (sort_by key_leb (map fst (map_to_list (tbl s)))).
 
 Definition if_alive (s : sched) (a : bytes) (k : sched * res) : sched * res :=
   if is_dead s a then (s, RDeadActor) else k.
 
 Definition step (o : op) (s : sched) : sched * res :=
-  if spin s then (s, RSpin) else
   match o with
-  | OOnce a recv ref d p => if_alive s a (schedule s a recv ref p TOnce (now s + d), ROk)
-  | OLoop a recv ref i p => if_alive s a (schedule s a recv ref p (TLoop i) (now s + i), ROk)
+  | OOnce a recv ref d p =>
+      if_alive s a (if d <? 0 then (s, RIllegalArg) else schedule s a recv ref p TOnce (now s + d))
+  | OLoop a recv ref i p =>
+      if_alive s a (if i <=? 0 then (s, RIllegalArg) else schedule s a recv ref p (TLoop i) (now s + i))
   | OCron a recv ref valid p =>
-      if_alive s a (if valid then (schedule s a recv ref p TCron 0, ROk) else (s, RParseErr))   (* parsed BEFORE scheduleJob *)
+      if_alive s a (if valid then schedule s a recv ref p TCron 0 else (s, RParseErr))   (* parsed BEFORE scheduleJob *)
   | OCancel a ref => if_alive s a (cancel s a ref)
   | OClear a => if_alive s a (clear s a, RUnit)
   | OExists a ref => if_alive s a (s, RBool (bool_decide (is_Some (jk_of s a !! ref))))
   | ODied a =>
       if_alive s a (let s' := clear s a in
-                 (mkSched (now s') (tbl s') (jk s') ({[a]} ∪ dead s') (fired s') (nid s') (spin s'), RUnit))
+                    (mkSched (now s') (tbl s') (jk s') ({[a]} ∪ dead s') (fired s') (nid s'), RUnit))
   | ORestarted a => if_alive s a (clear s a, RUnit)
   | OTick dt => (tick dt s, RUnit)
-  | OStall dt => (mkSched (now s + Z.max dt 0) (tbl s) (jk s) (dead s) (fired s) (nid s) (spin s), RUnit)
+  | OStall dt => (mkSched (now s + Z.max dt 0) (tbl s) (jk s) (dead s) (fired s) (nid s), RUnit)
   | ODump actors => (s, dump s actors)
   end.
 
@@ -252,25 +264,13 @@ Definition elapsed (ops : list op) : Z := fold_right (fun o z => op_dt o + z) 0 
 Definition is_stall (o : op) : bool := match o with OStall _ => true | _ => false end.
 Definition no_stall (ops : list op) : Prop := Forall (fun o => is_stall o = false) ops.
 
-(** [o] is a Cancel / Clear / termination / restart that can delete a queued job with key [k]: a Cancel
-    whose (actor, reference) renders [k], or a Clear of an actor one of whose references would render [k] *)
-Definition touches (k : bytes) (o : op) : Prop :=
-  match o with
-  | OCancel a r => job_key a r = k
-  | OClear a | ODied a | ORestarted a => exists r, job_key a r = k
-  | _ => False
-  end.
-
 (** the owner [a] removes its job with reference [ref]: Cancel(ref), Clear, its termination, its restart *)
 Definition removes (a ref : bytes) (o : op) : Prop :=
   o = OCancel a ref \/ o = OClear a \/ o = ODied a \/ o = ORestarted a.
 
-Definition loops_positive (ops : list op) : Prop :=
-  Forall (fun o => match o with OLoop _ _ _ i _ => 0 < i | _ => True end) ops.
-
 (** the instants t0 + i, t0 + 2i, ..., t0 + m*i *)
 Definition grid (t0 i : Z) (m : nat) : list Z := map (fun k => t0 + Z.of_nat k * i) (seq 1 m).
 
-(** [o] is a scheduling call of actor [a] with reference [ref] that reaches scheduleJob *)
+(** [o] is a scheduling call of actor [a] with reference [ref] *)
 Definition is_sched (o : op) (a recv ref : bytes) (p : N) : Prop :=
   (exists d, o = OOnce a recv ref d p) \/ (exists i, o = OLoop a recv ref i p) \/ o = OCron a recv ref true p.
